@@ -72,6 +72,7 @@ type Machine struct {
 	funcsSeen map[*ssa.Function]bool
 	unknowns  int
 	queriesFeas, queriesAssert int
+	implicitChecks int // run-time checks (bounds, nil, size, division) whose operand was symbolic
 	harness   *Harness
 	mapOrderFork bool
 	inconclusive []string
@@ -583,6 +584,9 @@ func isString(T types.Type) bool {
 func (m *Machine) boundsCheck(idx *Term, n int64, what string) {
 	// 0 <= idx < n, idx is 64-bit signed
 	ok := m.st.Ult(idx, m.st.Const(idx.W, uint64(n)))
+	if !ok.IsConst() {
+		m.implicitChecks++
+	}
 	if !m.branch(ok) {
 		m.raise(fault("index-out-of-range", "%s: index out of range [..] with length %d", what, n))
 	}
@@ -726,6 +730,9 @@ func (m *Machine) slice(fr *Frame, in *ssa.Slice) Value {
 	// 0 <= lo <= hi <= max <= cap   (unsigned compare catches negatives)
 	capT := m.st.Const(64, uint64(capacity))
 	ok := m.st.BAnd(m.st.Ule(mx, capT), m.st.BAnd(m.st.Ule(hi, mx), m.st.Ule(lo, hi)))
+	if !ok.IsConst() {
+		m.implicitChecks++
+	}
 	if !m.branch(ok) {
 		m.raise(fault("slice-bounds", "slice bounds out of range [%s:%s] with capacity %d", termStr(lo), termStr(hi), capacity))
 	}
@@ -800,6 +807,7 @@ func (m *Machine) checkAllocCount(n *Term, elemSize int64, what string, panics b
 			m.raise(fault("alloc-size", "%s: negative size", what))
 		}
 	}
+	m.implicitChecks++
 	budget := m.allocBudget
 	if budget <= 0 {
 		budget = 1 << 20
